@@ -1582,3 +1582,8 @@ NOT_PROVED = [x for x in NOT_PROVED if not str(x).startswith('floating-point rou
 PROOF_MODULES = PROOF_MODULES + [m for m in ['Compute.Lemmas.Rounding8', 'Compute.Props.Rounding8'] if m not in PROOF_MODULES]
 REQUIRED_THEOREMS = REQUIRED_THEOREMS + ['Cv.Rounding8.fixed_point_exact_score', 'Cv.Rounding8.loopBody_links', 'Cv.Rounding8.linearPredictor_error', 'Cv.Rounding8.muHat_error', 'Cv.Rounding8.sigma_lipschitz', 'Cv.Rounding8.exp_lipschitz', 'Cv.Rounding8.dInvLink_eq_variance', 'Cv.Rounding8.variance_map', 'Cv.Rounding8.varF_ne_zero', "Cv.Rounding8.scoring_fixed_point'"]
 NOT_PROVED = list(NOT_PROVED) + ["for the canonical families (Gaussian, Bernoulli, Poisson, quasi-Poisson) 'converged in floats => the EXACT penalised score is small' IS proved (Props/Rounding8 fixed_point_exact_score): |S(beta)_a| <= gamma_1 (|X^T W X + alpha I| + |E|)|beta| + |e| + sum_i |X_ia||w_i| (muErr_i + gamma_4 |y_i - mu_i|), muErr = link accuracy (ExpLnStd: exact / gamma_2+gamma^f_1 / u_f) + Lipschitz constant (1, 1/4, e^eta) x gamma_(p+2)(|X||beta| + |offset|); hypotheses: non-zero LU pivots if that route is taken, no saturated logistic variance; Gamma / Exponential (log link, variance mu^2) and convergence of the iteration itself are oracle only"]
+
+# --- review repairs in the Rounding layer (renamed stdmodel_* theorems, underflow-aware variants, genuine FlModel instance; wired by the lead)
+PROOF_MODULES = PROOF_MODULES + [m for m in ['Compute.Lemmas.FlModelGrid', 'Compute.Props.RoundingGrid'] if m not in PROOF_MODULES]
+REQUIRED_THEOREMS = REQUIRED_THEOREMS + [t for t in ['Cv.Rounding7.Examples3.stepI', 'Cv.RoundingGrid.Step.stepG', 'Cv.RoundingGrid.Step.etaGv', 'Cv.FlModel.grid_abs_sub_le', 'Cv.FlModel.grid_idem', 'Cv.FlModel.grid_mono', 'Cv.FlModel.grid_rnd_one', 'Cv.FlModel.grid_rnd_natCast', 'Cv.FlModel.grid_rnd_dyadic', 'Cv.FlModel.f64grid_u', 'Cv.FlModel.f64grid_mono'] if t not in REQUIRED_THEOREMS]
+NOT_PROVED = list(NOT_PROVED) + ['the scoring-step rounding theorems are stated for p >= 2 coefficients (p = 1 not covered); non-vacuity at u > 0 is shown on a complete evaluated step whose non-zero step is absorbed (1 % model and f64grid) and where the exact score is non-zero; for the log link the non-zero-variance hypothesis is automatic only absent exp underflow', 'FlModel has a genuine instance, FlModel.grid p (radix 2, p digits, round to nearest, unbounded exponent; f64grid has u = 2^-53), proved to satisfy the standard model and to be idempotent and monotone, with integers <= 2^p and dyadics exact (Lemmas/FlModelGrid); headline rounding theorems are instantiated on it (Props/RoundingGrid); overflow and underflow remain outside the model']
